@@ -18,12 +18,12 @@ COMPONENTS = {"real": ["workflows.* engine (wait_for_event, waiter reducer arms,
               "stub": ["llama_index_instrumentation"], "sim": ["loop, clock, responder"]}
 ASSUMPTIONS = ["a retry of a step that failed after its wait completed may complete the same wait again (documented: 'allow retries to grab the waiter events')",
                "timeouts within 1e-9 of the deadline are ties and exempt"]
-EXPECTED_PROBES = ["double-resume", "wait-completed", "wait-timeout", "duplicate-response", "resumed-with-pending-waiter", "two-matching-before-replay"]
+EXPECTED_PROBES = ["step-with-two-waits", "fallback-wait-after-timeout", "earlier-wait-replayed", "double-resume", "wait-completed", "wait-timeout", "duplicate-response", "resumed-with-pending-waiter", "two-matching-before-replay"]
 LEVEL_TEXT = ("Seeded exploration of response timings around waiter registration, replay and resume; every value returned by "
               "wait_for_event and every TimeoutError is attributed to one wait (step, input uid, waiter id) and counted.")
 LEVEL_NOTE = "Trusted: simulator loop, body logging around wait_for_event."
 
-CFG = {"p_double_resume": 30, "driver": "finish", "p_wait": 70, "p_retry": 15, "p_fail": 10, "p_wait_self": 15, "p_resp_step": 15,
+CFG = {"p_wait2": 35, "p_double_resume": 30, "driver": "finish", "p_wait": 70, "p_retry": 15, "p_fail": 10, "p_wait_self": 15, "p_resp_step": 15,
        "n_work": (1, 3), "n_types": (1, 3), "fan_max": 2, "wait_timeouts": [None, "default", 3, 6]}
 
 
@@ -41,6 +41,7 @@ def _roots(recs):
     anything else (e.g. a timeout applied to an already resolved waiter) is 'other'."""
     live: dict = {}      # (run, step, waiter id) -> {"type","req","hits":[kinds], "deser":bool, "orig":uid}
     roots: dict = {}     # (step, waiter id) -> root
+    doubled: set = set()  # (step, input uid) executed twice side by side after a resume (rehydration re-run + carried replay)
     unacked: set = set()
     for seq, t, kind, f in recs:
         if kind == "enter":
@@ -83,6 +84,10 @@ def _roots(recs):
                     if w["deser"] and not w["rehydrated"] and f.get("target") == st and f["uid"] == w["orig"]:
                         w["hits"].append("rehydrate")
                         w["saw_rehydrate"] = True
+                        if "inprogress" in w["hits"] or "carried" in w["hits"]:
+                            # the rehydration re-run comes on top of a replay of the same delivery that the snapshot already
+                            # carried (in progress / queued): from here on two executions of one delivery are live (defect B)
+                            doubled.add((st, w["orig"]))
                         if len(w["hits"]) >= 2:
                             roots[(st, wid)] = "rehydration-race"
                         continue
@@ -98,37 +103,80 @@ def _roots(recs):
                         w["hits"].append("event")
                         if w["deser"] and not w["rehydrated"]:
                             w["hit_unrehydrated"] = True
+    # a rehydration race on one waiter executes its whole delivery twice side by side: every other wait of that delivery is affected
+    for (run, st, wid), w in live.items():
+        if roots.get((st, wid)) == "rehydration-race":
+            doubled.add((st, w["orig"]))
     # a deserialized waiter with requirements for which the resumed run never even queued the rehydration re-run is not the recorded
     # race (there the re-run is queued and merely loses against an event): its requirements are gone for good
     for (run, st, wid), w in live.items():
         if w["deser"] and w.get("hit_unrehydrated") and not w.get("saw_rehydrate") and not w["rehydrated"] and w["req"] and \
                 roots.get((st, wid)) == "rehydration-race":
             roots[(st, wid)] = "never-rehydrated"
-    return roots
+    return roots, doubled
 
 
 def check(world, spec, outcome) -> None:
     recs = world.live_recs()
     resumed = bool(outcome and outcome.get("resumed"))
-    roots = _roots(recs)
+    roots, doubled = _roots(recs)
     actual_id: dict = {}
     for seq, t, kind, f in recs:
         if kind == "wait-call":
             actual_id[(f["step"], f["uid"], f["wid"])] = f["waiter"]
 
     def root_of(k):
-        return roots.get((k[0], actual_id.get(k)), "other")
+        r = roots.get((k[0], actual_id.get(k)), "other")
+        if r in ("other", "requeued-by-second-event") and (k[0], k[1]) in doubled:
+            # whatever this wait shows, its delivery is being executed twice side by side since the resume
+            return "rehydration-race"
+        return r
     arm = "resumed" if resumed else "single-run"
     done_cnt: dict = {}     # (step, uid, wid) -> completions since last failure of that delivery
     to_cnt: dict = {}
-    ask_pub: dict = {}      # waiter key -> publishes
+    hist: dict = {}         # (step, uid, wid) -> last outcome ("event", uid) | ("timeout", None) of that wait in this delivery
     calls: dict = {}
-    delivered_match: dict = {}   # key -> first time a matching response was processed
     emits: dict = {}
     n_resp = 0
     completed = timed = False
-    pending_at_snapshot = False
     unacked: set = set()
+    # the waits each execution (body entry, "inv") called, in order: a wait that is not the last one called is being REPLAYED
+    # (the body went past it), which by design hands back the outcome it already had
+    calls_of: dict = {}
+    for seq, t, kind, f in recs:
+        if kind == "wait-call":
+            calls_of.setdefault(f["inv"], []).append(f["wid"])
+
+    def outcome(seq, f, cur):
+        """judge one wait outcome (wait-result / wait-timeout record)"""
+        k = (f["step"], f["uid"], f["wid"])
+        prev = hist.get(k)
+        went_on = calls_of.get(f["inv"], [f["wid"]])[-1] != f["wid"]
+        hist[k] = cur
+        if prev is not None and went_on:
+            if prev == cur:
+                world.probe("earlier-wait-replayed")
+                return
+            if prev[0] != cur[0]:
+                world.violate("C10.double-resume", f"wait {k} first ended with {prev[0]} and, replayed by a later execution of the same invocation, with {cur[0]} "
+                              f"(uid {cur[1]})", seq, root=root_of(k), how=f"{prev[0]}-then-{cur[0]}")
+            else:
+                world.violate("C10.double-resume", f"wait {k} handed event uid {prev[1]} to one execution and uid {cur[1]} to a later replay of the same invocation",
+                              seq, root=root_of(k), how="event-changed")
+            return
+        if cur[0] == "event":
+            done_cnt[k] = done_cnt.get(k, 0) + 1
+            if done_cnt[k] > 1:
+                world.violate("C10.double-resume", f"wait {k} completed {done_cnt[k]} times (got uid {cur[1]})", seq, root=root_of(k), how="completed-twice")
+            elif prev is not None and prev[0] == "timeout":
+                world.violate("C10.double-resume", f"wait {k} first raised TimeoutError and later returned event uid {cur[1]}", seq, root=root_of(k), how="timeout-then-event")
+        else:
+            to_cnt[k] = to_cnt.get(k, 0) + 1
+            if to_cnt[k] > 1:
+                world.violate("C10.timeout-twice", f"wait {k} raised TimeoutError {to_cnt[k]} times", seq, root=root_of(k))
+            elif prev is not None and prev[0] == "event":
+                world.violate("C10.double-resume", f"wait {k} first returned event uid {prev[1]} and later raised TimeoutError", seq, root=root_of(k), how="event-then-timeout")
+
     for seq, t, kind, f in recs:
         if kind == "emit" and f.get("by") == "ext" and f["ev"] in ("Resp0", "Resp1"):
             emits[f["uid"]] = (f["ev"], f.get("key"), t)
@@ -136,48 +184,40 @@ def check(world, spec, outcome) -> None:
         elif kind == "wait-call":
             k = (f["step"], f["uid"], f["wid"])
             calls.setdefault(k, {"type": f["type"], "key": f["key"], "timeout": f["timeout"], "first_t": t, "ask": f["ask"]})
+            if len(calls_of.get(f["inv"], [])) > 1:
+                world.probe("step-with-two-waits")
         elif kind == "wait-result":
             k = (f["step"], f["uid"], f["wid"])
             completed = True
-            done_cnt[k] = done_cnt.get(k, 0) + 1
-            if done_cnt[k] > 1:
-                world.violate("C10.double-resume", f"wait {k} completed {done_cnt[k]} times (got uid {f['got']})", seq, root=root_of(k))
+            outcome(seq, f, ("event", f["got"]))
             if f["gtype"] != calls.get(k, {}).get("type", f["gtype"]):
                 world.violate("C10.wrong-type", f"wait {k} for {calls[k]['type']} returned {f['gtype']}", seq, root=root_of(k))
             if f["want"] is not None and f["key"] != f["want"]:
                 world.violate("C10.requirement-violated", f"wait {k} requires key={f['want']}, got event uid={f['got']} key={f['key']}", seq, root=root_of(k))
         elif kind == "wait-timeout":
-            k = (f["step"], f["uid"], f["wid"])
             timed = True
-            to_cnt[k] = to_cnt.get(k, 0) + 1
-            if to_cnt[k] > 1:
-                world.violate("C10.timeout-twice", f"wait {k} raised TimeoutError {to_cnt[k]} times", seq, root=root_of(k))
+            outcome(seq, f, ("timeout", None))
+            if len(calls_of.get(f["inv"], [])) > 1 and calls_of[f["inv"]][0] == f["wid"]:
+                world.probe("fallback-wait-after-timeout")
         elif kind == "exit" and str(f["exit"]).startswith("raised"):
             # the delivery failed: a retry may legitimately complete its waits again
-            for k in list(done_cnt):
-                if k[0] == f["step"] and k[1] == f["uid"]:
-                    done_cnt[k] = 0
-        elif kind == "publish" and f["ev"] == "Ask0" and f.get("uid") == -2:
-            pass
+            for d in (done_cnt, to_cnt, hist):
+                for k in list(d):
+                    if k[0] == f["step"] and k[1] == f["uid"]:
+                        d.pop(k)
         elif kind == "enter":
             unacked.add((f["step"], f["uid"] if not isinstance(f["uid"], list) else tuple(f["uid"])))
         elif kind == "tick" and f["tick"] == "step_result":
             unacked.discard((f["step"], f["uid"] if not isinstance(f["uid"], list) else tuple(f["uid"])))
         elif kind == "snapshot":
-            pending_at_snapshot = True
             # invocations not completed at the snapshot are legitimately re-executed after the resume
-            for k in list(done_cnt):
-                if (k[0], k[1]) in unacked:
-                    done_cnt[k] = 0
-            for k in list(to_cnt):
-                if (k[0], k[1]) in unacked:
-                    to_cnt[k] = 0
+            for d in (done_cnt, to_cnt, hist):
+                for k in list(d):
+                    if (k[0], k[1]) in unacked:
+                        d.pop(k)
     # waiter_event count: Ask0 published by the waiter path carries uid=-2 and key; count per (src step, key)
-    for seq, t, kind, f in recs:
-        if kind == "publish" and f["ev"] == "Ask0" and f.get("uid") == -2:
-            pass
     _count_waiter_events(world, recs, calls, root_of)
-    _spurious_timeouts(world, recs, root_of)
+    _spurious_timeouts(world, recs, root_of, actual_id)
     if completed:
         world.probe("wait-completed")
     if timed:
@@ -187,7 +227,7 @@ def check(world, spec, outcome) -> None:
     world._nt = (completed or timed) and (n_resp >= 2 or resumed)
 
 
-def _spurious_timeouts(world, recs, root_of) -> None:
+def _spurious_timeouts(world, recs, root_of, actual_id) -> None:
     """TimeoutError although a matching event was processed while the waiter was registered, more than eps before its deadline."""
     reg: dict = {}       # (run, step, waiter id) -> {deadline, type, req, matched_at}
     matched_before_deadline: dict = {}   # (run, step) -> list of (wid, t_match)
@@ -209,7 +249,8 @@ def _spurious_timeouts(world, recs, root_of) -> None:
                         w["matched"] = t
         elif kind == "wait-timeout":
             for k, w in reg.items():
-                if k[0] == f.get("run") and k[1] == f["step"] and w["uid"] == f["uid"] and w["matched"] is not None:
+                if k[0] == f.get("run") and k[1] == f["step"] and w["uid"] == f["uid"] and w["matched"] is not None and \
+                        k[2] == actual_id.get((f["step"], f["uid"], f["wid"]), k[2]):
                     world.violate("C10.spurious-timeout", f"wait in {f['step']} (input {f['uid']}) raised TimeoutError although a matching "
                                   f"event was processed at t={w['matched']}, before the deadline {w['deadline']}", seq,
                                   root=root_of((f["step"], f["uid"], f["wid"])))
@@ -224,7 +265,7 @@ def _count_waiter_events(world, recs, calls, root_of) -> None:
     for k, c in calls.items():
         if not c["ask"]:
             continue
-        askkey = c["key"] or f"any{k[1]}"
+        askkey = (c["key"] or f"any{k[1]}") + ("#w2" if str(k[2] or "").startswith("w2:") else "")
         n = len(pubs.get((k[0], askkey), []))
         if n > 1:
             world.violate("C10.waiter-event-count", f"waiter_event of wait {k} published {n} times", pubs[(k[0], askkey)][1], root=root_of(k))
